@@ -1958,6 +1958,8 @@ impl DtlsInner {
                         return Ok(());
                     };
                     if let Err(e) = self.handle_incoming_packet(packet, &mut ctx, &incoming_data_tx, &certificate, is_client).await {
+                        #[cfg(rustrtc_verif)]
+                        crate::verif_hooks::decoders::publish_hs_ctx(Arc::as_ptr(&self.state) as usize, [ctx.recv_message_seq as u64, ctx.message_seq as u64, ctx.incomplete_handshake.len() as u64, ctx.incomplete_msg_seq as u64, ctx.handshake_messages.len() as u64, ctx.post_hvr as u64, 1]);
                         warn!("DTLS handshake loop error in handle_incoming_packet: {}", e);
                         // Bad records can be ignored, but once verification has
                         // marked the transport as failed we should stop retrying.
@@ -1965,6 +1967,8 @@ impl DtlsInner {
                             return Err(e);
                         }
                     }
+                    #[cfg(rustrtc_verif)]
+                    crate::verif_hooks::decoders::publish_hs_ctx(Arc::as_ptr(&self.state) as usize, [ctx.recv_message_seq as u64, ctx.message_seq as u64, ctx.incomplete_handshake.len() as u64, ctx.incomplete_msg_seq as u64, ctx.handshake_messages.len() as u64, ctx.post_hvr as u64, 0]);
                 }
             }
         }
